@@ -89,10 +89,16 @@ def run(R):
     if os.path.exists(trace) and not os.environ.get("VERIF_KEEP"):
         os.remove(trace)
     rcr, rout = vlib.sh([runner, "conc"], stdin=text, timeout=1500)
-    lin_ok = lin_fail = 0
+    lin_ok = lin_fail = face_ok = 0
     fails = []
+    face_fails = []
     for l in rout.split("\n"):
-        if l.startswith("LIN "):
+        if l.startswith("FACE "):
+            if " ok " in l:
+                face_ok += 1
+            else:
+                face_fails.append(l)
+        elif l.startswith("LIN "):
             if " ok " in l:
                 lin_ok += 1
             else:
@@ -110,18 +116,21 @@ def run(R):
         want_ok = os.path.basename(p).startswith("good_")
         rcs, outs = vlib.sh([runner, "conc"], stdin=open(p).read(), timeout=300)
         verdicts = [l for l in outs.split("\n") if l.startswith("LIN ")]
+        verdicts += [l for l in outs.split("\n") if l.startswith("FACE ")]
         if not verdicts or any((" ok " in l) != want_ok for l in verdicts):
             R.proof_problems.append("history checker self-test failed on corpus/C16/%s (expected every round %s)" % (os.path.basename(p), "accepted" if want_ok else "rejected"))
     R.coverage["checker_selftest"] = "corpus/C16/*.hist: bad_* rejected, good_* accepted"
     # rounds: recorded ones (with H lines) and heavy unrecorded ones
-    rounds_seen = text.count("\nR ") + (1 if text.startswith("R ") else 0)
+    rounds_seen = text.count("\nR ") + text.count("\nFR ") + (1 if text.startswith("R ") else 0)
     distinct = set()
     cur, kinds, gors = [], set(), set()
     hist = {}
     rid = None
     for l in text.split("\n"):
-        if l.startswith("R "):
+        if l.startswith("R ") or l.startswith("FR "):
             rid = l.split(" ")[1]; cur, kinds, gors = [l], set(), set()
+        elif l.startswith(("A ", "D ")):
+            cur.append(l)
         elif l.startswith("H "):
             p = l.split(" "); cur.append(l); kinds.add(p[4]); gors.add(p[1])
         elif l.startswith(("U ", "F ")):
@@ -135,13 +144,21 @@ def run(R):
         R.oracle_failure("linearizability:" + (" ".join(l.split(" ")[6:8]))[:80],
                          "a recorded concurrent history has no sequential order that respects real time, reproduces every lookup result and ends in the observed final tables",
                          dict(seed=R.seed, verdict=l[:600], history=hist.get(rnd, [])))
+    for l in face_fails[:3]:
+        rnd = l.split(" ")[1].split(":")[0]
+        R.oracle_failure("facetable:" + ("duplicate-face-ids" if "duplicate-ids=[]" not in l and "duplicate-ids=" in l else " ".join(l.split(" ")[5:7]))[:80],
+                         "concurrent FaceTable.Add/Remove/Get: the face table / dispatch registry is not the outcome of any sequential order of the same operations "
+                         "(FaceIDs must be distinct and consecutive, every face bound under the id its Add returned)",
+                         dict(seed=R.seed, verdict=l[:600], history=hist.get(rnd, [])))
     samples = [x for x in text.split("\n") if x.startswith("H ")][:4]
     R.add_cases(rounds_seen, len(distinct), samples)
     R.coverage["rule"] = ("one evaluation = one round of 2..16 goroutines issuing reg/unreg/teardown/ins/rem/sets/uns and nh/st/fib/sl/rib lookups concurrently on a fresh FIB "
                           "(alternating name tree / hash table, m in 1..3) under -race; the first rounds (3 in 4, up to a cap) are recorded (<= 17 operations) and checked for a sequential witness, "
-                          "the others are unrecorded heavy rounds (200 operations per goroutine) for race/abort/deadlock detection; non-trivial = recorded round with >= 3 operation kinds "
+                          "the others are unrecorded heavy rounds (200 operations per goroutine) for race/abort/deadlock detection; every fifth round exercises the face table instead "
+                          "(stub faces: concurrent FaceTable.Add/Remove/Get; small recorded rounds searched for a sequential witness, heavy rounds checked against what every sequential order "
+                          "produces: distinct consecutive FaceIDs, bindings = added minus removed, dispatch registry equal); non-trivial = recorded round with >= 3 operation kinds "
                           "from >= 2 goroutines; distinct by MD5 of the history")
-    R.coverage["distribution"] = dict(rounds=rounds_seen, linearizable=lin_ok, not_linearizable=lin_fail, race_reports=nraces,
+    R.coverage["distribution"] = dict(rounds=rounds_seen, linearizable=lin_ok, not_linearizable=lin_fail, face_rounds_ok=face_ok, face_rounds_failed=len(face_fails), race_reports=nraces,
                                       stress_seconds=seconds, harness_exit=rc)
     return R.finish()
 
